@@ -116,6 +116,16 @@ def subquery_corpus():
         out.append(f"select x1.a, x2.b from t1 as x1 left join t2 as x2 on {cnd}")
         out.append(f"select x1.a, x2.b, x1.c from t1 as x1 cross join t2 as x2 where {cnd}")
         out.append(f"select count(*) from t1 as x1 join t2 as x2 on {cnd} join t3 as x3 on x3.a = x2.a")
+    # IN lists whose members are columns: columns used only inside the list, members from the other join side
+    for neg in ("", "not "):
+        out += [f"select x1.a from t1 as x1 where x1.a {neg}in (x1.b, 2)",
+                f"select x1.c from t1 as x1 where x1.a {neg}in (x1.b, x1.a + 1) order by x1.c",
+                f"select count(*) from t1 as x1 where x1.b {neg}in (x1.a, 1, 3)",
+                f"select x1.a, x2.b from t1 as x1 join t2 as x2 on x1.a {neg}in (x2.a, x2.b)",
+                f"select x1.c from t1 as x1 join t2 as x2 on x1.a = x2.a where x1.b {neg}in (x2.b, 1)",
+                f"select x1.a from t1 as x1 left join t2 as x2 on x1.a = x2.a where x1.a {neg}in (x2.b, 0)",
+                f"select x1.a, count(*) from t1 as x1 where x1.a {neg}in (x1.b, 1) group by x1.a",
+                f"select x1.a from t1 as x1 where x1.a {neg}in (x1.b) order by x1.a limit 2"]
     # sort keys that are not in the select list (ORDER BY [+ LIMIT / OFFSET] on a column, an aggregate, a column of
     # the other join side), with and without a filter on the key
     for tail in ("", " limit 2", " limit 1 offset 1", " offset 1"):
